@@ -1584,7 +1584,7 @@ namespace awkward {
 
   const ContentPtr
   NumpyArray::num(int64_t axis, int64_t depth) const {
-    int64_t posaxis = axis_wrap_if_negative(axis);
+    int64_t posaxis = axis_wrap_if_negative(axis, depth);
     if (posaxis == depth) {
       Index64 out(1);
       out.setitem_at_nowrap(0, length());
@@ -1659,7 +1659,7 @@ namespace awkward {
 
   const std::pair<Index64, ContentPtr>
   NumpyArray::offsets_and_flattened(int64_t axis, int64_t depth) const {
-    int64_t posaxis = axis_wrap_if_negative(axis);
+    int64_t posaxis = axis_wrap_if_negative(axis, depth);
     if (posaxis == depth) {
       throw std::invalid_argument(
         std::string("axis=0 not allowed for flatten") + FILENAME(__LINE__));
@@ -3174,7 +3174,7 @@ namespace awkward {
     else if (ndim() > 1  ||  !iscontiguous()) {
       return toRegularArray().get()->rpad(target, axis, depth);
     }
-    int64_t posaxis = axis_wrap_if_negative(axis);
+    int64_t posaxis = axis_wrap_if_negative(axis, depth);
     if (posaxis != depth) {
       throw std::invalid_argument(
         std::string("axis exceeds the depth of this array") + FILENAME(__LINE__));
@@ -3198,7 +3198,7 @@ namespace awkward {
     else if (ndim() > 1  ||  !iscontiguous()) {
       return toRegularArray().get()->rpad_and_clip(target, axis, depth);
     }
-    int64_t posaxis = axis_wrap_if_negative(axis);
+    int64_t posaxis = axis_wrap_if_negative(axis, depth);
     if (posaxis != depth) {
       throw std::invalid_argument(
         std::string("axis exceeds the depth of this array") + FILENAME(__LINE__));
@@ -3393,7 +3393,7 @@ namespace awkward {
 
   const ContentPtr
   NumpyArray::localindex(int64_t axis, int64_t depth) const {
-    int64_t posaxis = axis_wrap_if_negative(axis);
+    int64_t posaxis = axis_wrap_if_negative(axis, depth);
     if (posaxis == depth) {
       return localindex_axis0();
     }
@@ -3418,7 +3418,7 @@ namespace awkward {
         std::string("in combinations, 'n' must be at least 1") + FILENAME(__LINE__));
     }
 
-    int64_t posaxis = axis_wrap_if_negative(axis);
+    int64_t posaxis = axis_wrap_if_negative(axis, depth);
     if (posaxis == depth) {
       return combinations_axis0(n, replacement, recordlookup, parameters);
     }
